@@ -85,7 +85,12 @@ def accounted : List (Name × Name × Name × Name) := [
   (n!"generator/plugins/dotnet/dotnet_utils.py", n!"copy_custom_classes", n!"dirlist", n!"loop-writes-distinct-file-each")
 ]
 
-def sitesAccounted (sites : List (Name × Name × Name × Name)) : Bool := sites.all (fun s => accounted.contains s)
+/-- ways of consuming a hash-ordered container whose result cannot depend on the iteration order, wherever they occur -/
+def safeUses : List Name := [n!"sorted", n!"membership", n!"membership-only-via-name", n!"order-insensitive-len", n!"order-insensitive-any",
+  n!"order-insensitive-all", n!"order-insensitive-bool", n!"order-insensitive-min", n!"order-insensitive-max", n!"order-insensitive-sum"]
+
+def sitesAccounted (sites : List (Name × Name × Name × Name)) : Bool :=
+  sites.all (fun s => accounted.contains s || ((s.2.2.1 == n!"set") && safeUses.contains s.2.2.2))
 
 /-- the output discipline each plugin is expected to follow -/
 def expectedDisciplines : List (Name × Name × Name) := [
